@@ -333,6 +333,24 @@ func runC07(c *Ctx) {
 			}
 		}
 	}
+	// one $GENERATE yields at most 65536 records — also when its template smuggles a line end past the outer lexer inside
+	// what that one takes for a quoted string (`\\"`: an escaped backslash and an opening quote outside, an escaped quote
+	// in the generated text)
+	for _, tc := range []struct{ key, zone string }{
+		{"generate-at-most-65536:quoted-line-end", "$GENERATE 0-65535 a TXT x\\\\\"\nb TXT y\\\\\"\n"},
+		{"generate-at-most-65536:plain", "$GENERATE 0-65535 a$ TXT x\n"},
+		{"generate-at-most-65536:quoted", "$GENERATE 0-65535 a TXT \"x\ny\"\n"}} {
+		n := 0
+		res := guard(func() string {
+			zp := dns.NewZoneParser(strings.NewReader(tc.zone), "example.", "count.db")
+			zp.SetDefaultTTL(60)
+			for _, ok := zp.Next(); ok && n < 300000; _, ok = zp.Next() {
+				n++
+			}
+			return "ok"
+		})
+		c.Pred("directed", tc.key, "zone="+hxs(tc.zone), res == "ok" && n <= 65536, fmt.Sprintf("%s, %d records", res, n), "at most 65536 records", true)
+	}
 	// a $GENERATE inside a $GENERATE is refused also when an $INCLUDE stands between them: the file a generated $INCLUDE
 	// line names contains a $GENERATE of its own
 	for _, tc := range []struct {
